@@ -85,6 +85,12 @@ class Engine(Interp):
             if name == 'get':
                 return recv.items.get(args[0], args[1] if len(args) > 1 else None)
             if recv.label == 'DataFrame':
+                if name == 'join':
+                    # assumed (pandas): the outer join of one-row frames is one row
+                    self.note_assumed('pandas.DataFrame.join')
+                    f = Sym('any', z3.Int(fresh_name('joined')))
+                    self.st.assume(z3.Function('df_rows', I, I)(f.t) == 1)
+                    return f
                 return Opaque('DataFrame')
             raise OutOfSubset(f"record method {name}")
         if isinstance(recv, PyList):
@@ -123,6 +129,8 @@ class Engine(Interp):
         if isinstance(recv, str) or (isinstance(recv, Sym) and recv.kind == 'str'):
             if name in ('format', 'split', 'replace', 'strip'):
                 return Sym('str', z3.Int(fresh_name('strres')))
+        if isinstance(recv, Sym) and recv.kind == 'any' and name in ('infer_objects', 'fillna', 'copy'):
+            return recv         # assumed (pandas): same rows
         if isinstance(recv, Sym) and recv.kind == 'any':
             raise OutOfSubset(f"method {name} on untyped value at line {getattr(node, 'lineno', '?')}")
         raise OutOfSubset(f"method {name} on {recv!r} at line {getattr(node, 'lineno', '?')}")
@@ -145,10 +153,9 @@ class Engine(Interp):
         if w == 'module:time' and name == 'time':
             self.note_assumed('time.time() (wall clock, nondeterministic)')
             return Sym('num', z3.Real(fresh_name('wallclock')))
-        if w == 'module:pd' and name == 'DataFrame':
-            if not args and not kwargs:
-                return Record({}, label='DataFrame')
-            return Opaque('DataFrame')
+        if w == 'module:pd' and name in self.spec.dep_classes.get('module:pd', {}):
+            self.note_assumed(f"pandas.{name}")
+            return self.spec.dep_classes['module:pd'][name](self, recv, args, node)
         if w in ('module:logging', 'module:LOGGER', 'module:logger'):
             return None
         if w == 'super' and name == '__init__':
@@ -169,6 +176,24 @@ class Engine(Interp):
             dn = self.num(d)
             self.check_or_raise(dn >= 0, 'ValueError', node, 'negative timeout')
             return TimeoutV(Sym('num', dn))
+        if name == 'run':
+            # ASSUMED (SimPy + the segment rule): env.run executes process segments; each preserves the invariants of the
+            # actors (proved per segment), time does not go backwards and stops exactly at `until`
+            until = kwargs.get('until', args[0] if args else None)
+            old_now = self.st.now
+            if until is not None:
+                u = self.num(until)
+                self.check_or_raise(u > old_now, 'ValueError', node, 'env.run(until) not in the future')
+            self.note_assumed('simpy.Environment.run (S1-S7) + segment rule')
+            self.havoc_world('env.run')
+            from .driver import invariant_clauses
+            roots = {k: v for k, v in self.st.locals.items() if isinstance(v, ObjV)}
+            sv = SV(self, self.st, roots)
+            for nm, cl in invariant_clauses(self.spec, self, sv, roots):
+                self.st.assume(hyp_of(cl))
+            if until is not None:
+                self.st.assume(self.st.now == u)
+            return None
         if name == 'process':
             g = args[0]
             if not isinstance(g, GenV):
@@ -341,6 +366,8 @@ class Engine(Interp):
         if name == 'tqdm':
             return Opaque('pbar')
         if name == 'sum':
+            if isinstance(args[0], tuple) and args[0][0] == 'indicator':
+                return Sym('num', z3.ToReal(args[0][1]), isint=True)
             raise OutOfSubset("sum()")
         if name == 'range':
             return ('range', args)
@@ -769,6 +796,9 @@ class Engine(Interp):
 
     def havoc_modifies(self, c, vals):
         for spec in c.modifies:
+            if spec == 'world':
+                self.havoc_world(c.qual)
+                continue
             self.havoc_loc(self.resolve_loc(spec, vals), f"{c.qual}.{spec}")
 
     # ================================================================ loops
@@ -854,7 +884,63 @@ class Engine(Interp):
                 self.oblige(f"loop-frame:{name}:heap:{k[0]}.{k[1]}", 'frame', o == arr, node)
 
     def cut_loop(self, s, spec):
-        raise OutOfSubset("while-loop invariants: not implemented yet")
+        """while-loop cut at its invariant; spec.modifies may contain 'world' (everything reachable + heap + time)"""
+        fi = self.fn_stack[-1]
+        name = f"{fi.qual}:loop{spec.ordinal}"
+        pre_loop = self.snapshot(dict(self.st.locals))
+        c = self.loop_ctx(spec, pre_loop, {'pre': pre_loop})
+        for nm, cl in spec.inv(c):
+            self.oblige(f"loop-init:{name}:{nm}", 'loop-init', cl, s)
+        for ln in spec.modifies_locals:
+            if ln in self.st.locals:
+                cur = self.st.locals[ln]
+                if isinstance(cur, (ListObj, DictObj)):
+                    self.havoc_loc(cur, f"{name}.{ln}")
+                else:
+                    self.st.locals[ln] = self._havoc_leaf(cur, f"{name}.{ln}", set())
+        for ms in spec.modifies:
+            if ms == 'world':
+                self.havoc_world(name)
+            else:
+                self.havoc_loc(self.resolve_loc(ms, self.st.locals), f"{name}.{ms}")
+        c = self.loop_ctx(spec, pre_loop, {'pre': pre_loop})
+        for nm, cl in spec.inv(c):
+            self.st.assume(hyp_of(cl))
+        cond = self.cond(s.test)
+        if self.branch(cond):
+            try:
+                self.exec_block(s.body)
+            except ContinueSig:
+                pass
+            except BreakSig:
+                return
+            c2 = self.loop_ctx(spec, pre_loop, {'pre': pre_loop})
+            for nm, cl in spec.inv(c2):
+                self.oblige(f"loop-step:{name}:{nm}", 'loop-step', cl, s)
+            raise PathEnd('loop-back')
+        self.exec_block(s.orelse)
+
+    def havoc_world(self, base):
+        """everything any process may change: every leaf of the actors, the entity heap, the pending-spawn ghosts, time"""
+        seen = set()
+        saved_const = set(self.spec.const_fields)
+        self.spec.const_fields |= set(getattr(self.spec, 'run_const', ()))     # fields no process writes (scan obligation)
+        try:
+            for k, v in list(self.st.locals.items()):
+                if isinstance(v, ObjV):
+                    self._havoc(v, v.cls, seen)
+        finally:
+            self.spec.const_fields = saved_const
+        for k in list(self.st.heap):
+            self.st.heap[k] = z3.Const(fresh_name(f"H!{k[0]}.{k[1]}"), self.st.heap[k].sort())
+        for g in list(self.st.ghost):
+            if g.startswith('_') or g == 'alloc':
+                continue
+            self.st.ghost[g] = z3.Const(fresh_name('ghost_' + g), self.st.ghost[g].sort())
+        old_now = self.st.now
+        self.st.now = z3.Real(fresh_name('now'))
+        self.st.assume(z3.IsInt(self.st.now))
+        self.st.assume(self.st.now >= old_now)
 
     def cut_for(self, s, it, spec):
         """for-loop over a multiset / range, cut at its invariant (DESIGN 5.4)"""
